@@ -23,7 +23,7 @@ Print Assumptions C14_total.
    sugar layer (fmt_facts: Sprintln's result ends in a newline) *)
 Theorem C14_never_crash :
   forall V F (as_field : V -> option F) is_error as_string any_fld named_error array_invalid
-         (lg : logger F) (withs : list (list V)) (c : call V),
+         (lg : logger F) (withs : list (step V)) (c : call V),
   fmt_facts V as_string c ->
   snd (run V F as_field is_error as_string any_fld named_error array_invalid lg withs c) <> TCrash.
 Proof. exact never_crash. Qed.
@@ -166,6 +166,54 @@ Theorem C14_call_disabled :
 Proof. exact call_disabled. Qed.
 Print Assumptions C14_call_disabled.
 
+(* ---- the level gate, for an ARBITRARY enabler predicate [lg_en lg : Z -> bool] and ANY level ----
+   (a plain zapcore.Level below Debug, a non-monotone LevelEnablerFunc, an AtomicLevel; named
+   levels, zapr-style verbosity levels below Debug, levels above Fatal).
+   SugaredLogger.log/logln go on past their early return exactly when the core's enabler accepts
+   the level or the level is DPanic or above; when they do not, nothing at all is produced *)
+Theorem C14_gate :
+  forall V F (as_field : V -> option F) is_error as_string any_fld named_error array_invalid (lg : logger F) (c : call V),
+  (sugar_gate lg (c_lvl c) = true <-> lg_en lg (c_lvl c) = true \/ (DPanicLevel <= c_lvl c)%Z) /\
+  (sugar_gate lg (c_lvl c) = false ->
+   do_call V F as_field is_error as_string any_fld named_error array_invalid lg c = ([], TNone)).
+Proof. exact gate_thm. Qed.
+Print Assumptions C14_gate.
+
+(* the sugared call of any family delivers its entry (at the call's level, fields = context ++
+   well-formed arguments) IF AND ONLY IF the core's enabler accepts the level: the sugar never
+   decides on its own that a level the core enables is "disabled" *)
+Theorem C14_delivers_iff_enabled :
+  forall V F (as_field : V -> option F) is_error as_string any_fld named_error array_invalid (lg : logger F) (c : call V),
+  fmt_facts V as_string c ->
+  (delivered V F as_field is_error as_string any_fld named_error lg c
+     (fst (do_call V F as_field is_error as_string any_fld named_error array_invalid lg c))
+   <-> lg_en lg (c_lvl c) = true).
+Proof. exact delivers_iff_enabled. Qed.
+Print Assumptions C14_delivers_iff_enabled.
+
+(* the same over a history of With/WithLazy calls and enabler changes (AtomicLevel.SetLevel ...):
+   the entries are the With diagnostics followed by the call's entries, and the call's entry is
+   delivered iff the enabler in force WHEN THE CALL IS MADE accepts the level *)
+Theorem C14_history_delivers_iff :
+  forall V F (as_field : V -> option F) is_error as_string any_fld named_error array_invalid
+         (lg : logger F) (steps : list (step V)) (c : call V),
+  fmt_facts V as_string c ->
+  let lg' := fst (spec_withs V F as_field is_error as_string any_fld named_error array_invalid lg steps) in
+  exists call_es,
+    fst (run V F as_field is_error as_string any_fld named_error array_invalid lg steps c)
+      = snd (spec_withs V F as_field is_error as_string any_fld named_error array_invalid lg steps) ++ call_es /\
+    (delivered V F as_field is_error as_string any_fld named_error lg' c call_es
+     <-> final_en V (lg_en lg) steps (c_lvl c) = true).
+Proof. exact history_delivers_iff. Qed.
+Print Assumptions C14_history_delivers_iff.
+
+(* the wire's enabler descriptions cover every finite set of levels and every threshold *)
+Theorem C14_wire_enabler :
+  (forall ls l, dec_en (SL [SZ 0; SL (map SZ ls)]) l = true <-> In l ls) /\
+  (forall k min l, k <> 0%Z -> dec_en (SL [SZ k; SZ min]) l = (min <=? l)%Z).
+Proof. exact wire_enabler. Qed.
+Print Assumptions C14_wire_enabler.
+
 (* messages.  print-style = Sprint (given Sprint() = "" and Sprint(s) = s); println-style =
    Sprintln without its newline; printf-style = template when there are no arguments, Sprintf
    otherwise -- PARTIAL: proved for template <> "" \/ args = [] *)
@@ -220,6 +268,21 @@ Proof. vm_compute. repeat split; reflexivity. Qed.
 
 Example C14_example_wf : wf ex_case = true /\ spec ex_case (model ex_case) = true /\
   length (sx_l (sx_nth (model ex_case) 1)) = 7.
+Proof. vm_compute. repeat split; reflexivity. Qed.
+
+(* the gate on concrete cases: Logw(Level(-2), "m", ex_args...) on a core whose enabler is the plain
+   zapcore.Level(-3): 3 diagnostics + the entry at level -2; the same on an AtomicLevel at Info moved
+   to -3 after a With; nothing once it is moved back to Info; a LevelEnablerFunc accepting {-2, 7} only
+   delivers the entry (its diagnostics are lost: Error is off) *)
+Example C14_example_gate :
+  wf (gate_case (SL [SZ 1; SZ (-3)]) [] (-2) ex_args) = true /\
+  length (sx_l (sx_nth (model (gate_case (SL [SZ 1; SZ (-3)]) [] (-2) ex_args)) 1)) = 4 /\
+  length (sx_l (sx_nth (model (gate_case (SL [SZ 2; SZ 0]) [SL [SZ 0; SZ 0; SL []]; SL [SZ 1; SL [SZ 2; SZ (-3)]]] (-2) ex_args)) 1)) = 4 /\
+  length (sx_l (sx_nth (model (gate_case (SL [SZ 2; SZ (-3)]) [SL [SZ 1; SL [SZ 2; SZ 0]]] (-2) ex_args)) 1)) = 0 /\
+  length (sx_l (sx_nth (model (gate_case (SL [SZ 0; SL [SZ (-2); SZ 7]]) [] (-2) ex_args)) 1)) = 1 /\
+  length (sx_l (sx_nth (model (gate_case (SL [SZ 0; SL [SZ (-2); SZ 7]]) [] 7 ex_args)) 1)) = 1 /\
+  length (sx_l (sx_nth (model (gate_case (SL [SZ 0; SL [SZ (-2); SZ 7]]) [] 0 ex_args)) 1)) = 0 /\
+  spec (gate_case (SL [SZ 1; SZ (-3)]) [] (-2) ex_args) (SL [SZ 0; SL []]) = false.
 Proof. vm_compute. repeat split; reflexivity. Qed.
 
 Example C14_example_good_key :
